@@ -109,10 +109,25 @@ Definition code_byte_at (content : str) (row col : Z) (c : N) : bool :=
 
 (* the property predicate on the linter's output, evaluated with the model's lexer:
    every location handed to a text fix is the byte the fix is documented to edit, in code *)
+(* the hypothesis of the termination theorem about no-whitespace-comment (Proofs.Fixes.nwc_reported):
+   the reported '#' is directly followed, on its line, by a character that is not a blank *)
+Definition nwc_reported_b (content : str) (row col : Z) : bool :=
+  match get_line (lines_of content) row with
+  | Some line => match byte_index_of_column line col with
+                 | Some idx => match nth_error line (S idx) with
+                               | Some d => negb (is_blank d)
+                               | None => false
+                               end
+                 | None => false
+                 end
+  | None => false
+  end.
+
 Definition viol_targets_code (m : mod_case) (v : viol) : bool :=
   match v_kind v with
   | VUao => is_fallback m v || code_byte_at (m_content m) (v_row v) (v_col v) EQ
   | VNwc => code_byte_at (m_content m) (v_row v) (v_col v) HASH
+            && nwc_reported_b (m_content m) (v_row v) (v_col v)
   | VNrr => code_byte_at (m_content m) (v_row v) (v_col v) DQ
   | VOther => true
   end.
